@@ -327,8 +327,10 @@ class USBTokenDetector(Elaboratable):
 
                 # If our transaction stops, discard the current read state.
                 # We'll ignore token fragments, since it's impossible to tell
-                # if they were e.g. for us.
+                # if they were e.g. for us. A token we couldn't read still ends the
+                # validity of the previous one: whatever follows doesn't belong to it.
                 with m.If(~self.utmi.rx_active):
+                    m.d.usb += self.interface.pid.eq(0)
                     m.next = "IDLE"
 
                 # If we have a new byte, grab it, and move on to the next.
@@ -340,6 +342,7 @@ class USBTokenDetector(Elaboratable):
             with m.State("READ_TOKEN_1"):
 
                 with m.If(~self.utmi.rx_active):
+                    m.d.usb += self.interface.pid.eq(0)
                     m.next = "IDLE"
 
                 # Once we've just gotten the second core byte of our token,
@@ -354,8 +357,10 @@ class USBTokenDetector(Elaboratable):
                         m.next = "TOKEN_COMPLETE"
 
                     # ... otherwise, we'll ignore the whole token, as we can't tell
-                    # if this token was meant for us.
+                    # if this token was meant for us; but we won't act on following packets
+                    # on behalf of the previous token, either.
                     with m.Else():
+                        m.d.usb += self.interface.pid.eq(0)
                         m.next = "IRRELEVANT"
 
             # TOKEN_COMPLETE: we've received a full token; and now need to wait
